@@ -124,3 +124,57 @@ PROPS['C10'] = dict(
     tolerances='backward error 64 n eps (||A-sI||_F ||x|| + ||b||); lower/upper agreement 64 n eps cond_2 ||x||; "nonsingular" = sigma_min >= 1e-6 ||A-sI||_F',
     assumptions=KERNEL_ASSUME,
 )
+
+SOLVER_ASSUME = ['long double residuals / Gram matrices; Eigen SelfAdjointEigenSolver<complex long double> for reference spectra',
+                 'H1 observer (guarded hook) used only to count restarts and to classify breakdown handling, never for the verdict on a pair']
+
+def real_units(prefix, src, extra=None):
+    return [dict(name=prefix + '_' + tag, src=src, flags=['-DVF_REAL=' + ty] + (extra or []))
+            for tag, ty in (('d', 'double'), ('f', 'float'), ('l', 'long double'))]
+
+PROPS['C01'] = dict(
+    level='exploration',
+    technique='rapidcheck stateful generation: spectrum recipe x solver/operator form x argument space x init/compute histories; long double residual and Gram oracles after every compute()',
+    level_text='Random search with shrinking over {SymEigsSolver, HermEigsSolver, SymEigsShiftSolver} x {float, double, long double (and their complex types)} x '
+               '{dense wrapper, sparse wrapper, user functor} x nine spectrum classes (ties, clusters, graded over 16 decades, exactly low rank, decoupled blocks) x scale 1e-8..1e8 x '
+               'legal (nev, ncv) incl. ncv = nev+1 and ncv = n x 5 selection rules x tol from 8 eps to 1e-3 x maxit 0..20/1000 x start vectors (default, random, eigenvector, '
+               'combination of eigenvectors, unit vector) x histories of up to 5 init()/compute() calls. After EVERY compute() each returned pair must have unit norm, residual '
+               '<= tol*documented scale + 64 n eps (1+restarts) ||A||, and the vectors must be orthonormal to 64 n eps (1+restarts).',
+    level_note='Shift mode: the bound is the exact consequence of the documented test in nu, pushed through lambda = sigma + 1/nu, with cond(A - sigma I) taken from a long double reference spectrum. '
+               'Restart count comes from the guarded observer. Zero matrices are left to C13.',
+    units=real_units('c01', 'c01_sym.cpp'),
+    runs=dict(
+        quick=[dict(unit='c01_d', cases=3000, workers=2), dict(unit='c01_f', cases=3000, workers=1), dict(unit='c01_l', cases=3000, workers=1)],
+        thorough=[dict(unit='c01_d', cases=40000, workers=8), dict(unit='c01_f', cases=40000, workers=4), dict(unit='c01_l', cases=40000, workers=4)],
+    ),
+    min=dict(quick=dict(cases=10000, nontrivial=4000, classes={'partial_convergence': 20, 'history_with_2+_computes': 500, 'compute_without_fresh_init': 300, 'breakdown_seen_by_observer': 100,
+                                                             'form/sparse_wrapper': 500, 'form/user_functor': 500, 'start/eigenvector': 100}),
+             thorough=dict(cases=400000, nontrivial=150000)),
+    rule='case = (solver, scalar, operator form, spectrum class, n <= 40, content seed, scale, nev, ncv, history of init/compute ops each with its own start vector / selection / sorting / maxit / tol, sigma position). '
+         'Every compute() in the history is checked. Non-trivial = some compute returned >= 1 pair and n >= 4; distinct = 64-bit hash of the draw log.',
+    tolerances='unit norm 8 n eps (1+r); residual tol*max(eps^(2/3),|theta|) + 64 n eps (1+r) ||A||_F (plain) / tol*||A-sI||_2*max(1,eps^(2/3)/|nu|) + 64 n eps (1+r)(||A|| + cond(A-sI) ||A-sI|| numax/|nu|) (shift); orthonormality 64 n eps (1+r); r = restarts seen by the observer since init',
+    assumptions=SOLVER_ASSUME,
+)
+
+PROPS['C07'] = dict(
+    level='exploration',
+    technique='rapidcheck stateful generation of restart / extension sequences on Arnoldi and Lanczos (direct drive) plus observed solver runs; the guarded observer hands every passed-on factorization to a long double invariant oracle',
+    level_text='Mode A drives Arnoldi<real>, Lanczos<real>, Lanczos<complex> and Lanczos with a B inner product through init / factorize_from / compress_H / compress_V with drawn '
+               'sequences of up to 30 extensions and implicit restarts (exact Ritz shifts as the solvers use, arbitrary real shifts, arbitrary conjugate pairs via DoubleShiftQR), start '
+               'vectors in invariant subspaces, nine spectrum classes and scales 1e-8..1e8. Mode B runs SymEigs/HermEigs/GenEigs/SymEigsShift/SymGEigs(RegularInverse)/SymGEigsShift(ShiftInvert) '
+               'solvers. At every EvInit / EvExtended / EvCompressed event the observer checks ||OP V - V H - f e_k\'||_F, V^H B V - I, V^H B f, the band structure of H, the advertised k and ||f||.',
+    level_note='The reference operator (A, (A - sigma I)^-1, B^-1 A, (A - sigma B)^-1 B) is formed in long double; where the user operator itself solves a linear system in working precision the '
+               'constant is multiplied by that system\'s condition number (taken from the reference, not from the code under test).',
+    units=real_units('c07', 'c07_krylov.cpp'),
+    runs=dict(
+        quick=[dict(unit='c07_d', cases=2500, workers=2), dict(unit='c07_f', cases=2500, workers=1), dict(unit='c07_l', cases=2500, workers=1)],
+        thorough=[dict(unit='c07_d', cases=30000, workers=8), dict(unit='c07_f', cases=30000, workers=4), dict(unit='c07_l', cases=30000, workers=4)],
+    ),
+    min=dict(quick=dict(cases=8000, nontrivial=3000, classes={'with_restart': 2000, 'double_shift': 100, 'B_inner_product': 500, 'direct/Lanczos<complex Hermitian>': 300}),
+             thorough=dict(cases=300000, nontrivial=100000)),
+    rule='case = direct drive (factorization kind, n <= 30, m, matrix recipe, start vector kind, op sequence of extensions / restarts with shift source and single/double shifts) or observed solver run '
+         '(solver, recipe, nev, ncv, start, 1-2 computes with selection / maxit <= 50 / tol). Non-trivial = at least one implicit restart (or >= 3 checked hand-over points); distinct = 64-bit hash of the draw log.',
+    tolerances='||OP V - V H - f e_k\'||_F <= c (1+r) n eps ||OP||_F; max|V^H B V - I| <= c (1+r) n eps kappa(B); max|V^H B f| <= c (1+r) n eps kappa(B) ||OP||; H outside its band <= c n eps ||OP||; '
+               'c = 64, times cond of the linear system a user operator solves in working precision; r = implicit restarts since init',
+    assumptions=SOLVER_ASSUME,
+)
